@@ -1,5 +1,6 @@
 import PQ.Model.Store
 import PQ.Model.Arith
+import PQ.Model.Iter
 /-!
 # A small deep-embedded IR for the index-table / heap functions of the crate, and its interpreter
 
@@ -46,6 +47,13 @@ inductive FnId where
   | pqDeserialize | dqDeserialize
   | pqIterMutNext | pqIterMutNextBack | pqIterMutLen | pqIterMutSizeHint | pqIterMutDrop
   | dqIterMutNext | dqIterMutNextBack | dqIterMutLen | dqIterMutSizeHint | dqIterMutDrop
+  | pqIterMutNew | dqIterMutNew
+  | pqSortedNext | dqSortedNext | dqSortedNextBack | dqSortedLen | dqSortedSizeHint
+  | drainNext | drainNextBack | drainLen | drainSizeHint
+  | iterNext | iterNextBack | iterLen | iterSizeHint
+  | intoIterNext | intoIterNextBack | intoIterLen | intoIterSizeHint
+  | storeIntoVec | pqIntoVec | dqIntoVec | pqIntoSortedVec | dqIntoAscVec | dqIntoDescVec
+  | storeEq | storeSerialize
   deriving DecidableEq, Repr
 
 /-- `usize`-valued expressions: pure except for faults -/
@@ -115,6 +123,22 @@ inductive BExpr where
   | mapInsertIsNone (iv : Var) (p : PExpr)
   /-- `better_to_rebuild(a, b)` (generated `PQ.Arith.betterToRebuild`) -/
   | betterToRebuild (a b : NExpr)
+  deriving Repr
+
+/-- what a method of an iterator hands back (next to the new values of its cursor fields) -/
+inductive OExpr where
+  /-- nothing (a constructor of the iterator) -/
+  | none
+  /-- the `Option<(&mut I, &mut P)>` in value register `v` (made by `Stmt.setVSlot`) -/
+  | slotV (v : Var)
+  /-- `None` -/
+  | slotNone
+  /-- the raw-pointer reborrow of slot `e` as the tail expression (see `Stmt.setVSlot`) -/
+  | slotAt (e : NExpr)
+  /-- `len()`: a `usize` -/
+  | len (e : NExpr)
+  /-- `(len, Some(len))` -/
+  | hint (e : NExpr)
   deriving Repr
 
 inductive Stmt where
@@ -267,6 +291,32 @@ inductive Stmt where
   | adaptPred (dst src : Var)
   /-- `self.store.append(&mut other.store)` through the translated `Store::append`: `other` gets what is left of it -/
   | appendOther (ov : Var)
+  /-- TRUSTED primitive "yield slot `e`": `self.pq.store.map.get_index_mut2(e).map(|(i, p)| (i as *mut I, p as *mut P))
+      .map(|(i, p)| unsafe { (i.as_mut().unwrap(), p.as_mut().unwrap()) })` — the raw-pointer reborrow that gives the
+      references the lifetime of the queue borrow; read as "`Some(slot e)` iff `e < map.len()`" -/
+  | setVSlot (v : Var) (e : NExpr)
+  /-- return from a method of an iterator: the (new) values of the cursor fields, passed by reference, and the result -/
+  | retCursor (fields : List NExpr) (o : OExpr)
+  /-- `self.iter.<method>()` for IndexMap's slice iterator (registers 0 and 1 are its two ends): TRUSTED as `Cursor.step` -/
+  | retImapIter (c : ICall)
+  /-- `self.map.into_iter().map(|(i, _)| i).collect()` -/
+  | retMapItems
+  /-- `let mut res = Vec::with_capacity(self.store.size)` -/
+  | itemsNew (v : Var)
+  /-- `res.push(i)` for the item of the entry in value register `ev` -/
+  | itemsPush (res ev : Var)
+  /-- `while let Some((i, _)) = self.f() { body }` for a translated `f` that returns `Option<(I, P)>`; the entry is put in
+      value register `ev`; the next iteration costs one unit of fuel like `while` -/
+  | whileSomeCall (ev : Var) (f : FnId) (body : Stmt)
+  /-- `self.map == other.map` (IndexMap's `PartialEq`, TRUSTED as `IMap.eqv` with the user's `P1: PartialEq<P2>` in value
+      register `fv`) -/
+  | retMapEqBy (ov fv : Var)
+  /-- `&self.map` as a sequence of entries in slot order -/
+  | setVMapEntries (v : Var)
+  /-- `serializer.serialize_seq(Some(e))?` (the serializer is trusted not to fail): an empty output announcing `e` elements -/
+  | serBegin (v : Var) (e : NExpr)
+  /-- `map_serializer.serialize_element(&(k, v))?` -/
+  | serElement (sv iv pv : Var)
   deriving Repr
 
 /-- a translated function: its `usize` parameters, its priority parameters, its body -/
@@ -314,6 +364,12 @@ inductive Val (P : Type) where
   | predRO (g : Item → P → Bool)
   /-- a sequence of (item, priority) pairs: a `Vec`, what an iterator yields, what `drain` hands out -/
   | entries (a : Array (Item × P))
+  /-- what a method of an iterator hands back: the values of its cursor fields (by reference) and its result -/
+  | cursor (fields : List Nat) (out : Option IOut)
+  /-- a `Vec<I>` -/
+  | items (l : List Item)
+  /-- the user's `P1: PartialEq<P2>` -/
+  | eqP (f : P → P → Bool)
 
 inductive Flow (P : Type) where
   | normal
@@ -385,6 +441,27 @@ def evalN (st : St P) : NExpr → R Nat
 def evalNs (st : St P) : List NExpr → R (List Nat)
   | [] => pure []
   | e :: es => do let x ← evalN st e; let xs ← evalNs st es; pure (x :: xs)
+
+/-- the result of a method of an iterator -/
+def evalO (st : St P) : OExpr → R (Option IOut)
+  | .none => pure none
+  | .slotV v => match st.v v with
+    | some (.optNat o) => pure (some (.slot o))
+    | _ => .error stuck
+  | .slotNone => pure (some (.slot none))
+  | .slotAt e => do
+    let x ← evalN st e
+    pure (some (.slot (if x < st.s.map.size then some x else none)))
+  | .len e => do let x ← evalN st e; pure (some (.len x))
+  | .hint e => do let x ← evalN st e; pure (some (.hint x (some x)))
+
+/-- IndexMap's `==` for a given equality of the values: same length and every entry of the left found with an equal value
+in the right (`IMap.eqv` is this for `decide (· = ·)`) -/
+def eqvBy (f : P → P → Bool) (a b : IMap P) : Bool :=
+  a.size == b.size && a.all fun e =>
+    match IMap.getFull b e.1.key with
+    | some (_, _, q) => f e.2 q
+    | none => false
 
 /-- the type of the "call a translated function" callback -/
 abbrev CallF (P : Type) := FnId → Store P → List Nat → List P → List (Val P) → R (Store P × Val P)
@@ -878,6 +955,46 @@ def execStep (rec : Stmt → St P → R (St P × Flow P)) (callf : CallF P) : St
         | _ => .error stuck
       | _ => .error stuck
     | none => .error stuck
+
+  | .setVSlot v e, st => do
+    let x ← evalN st e
+    pure (st.setV v (.optNat (if x < st.s.map.size then some x else none)), .normal)
+  | .retCursor fields o, st => do
+    let fs ← evalNs st fields
+    let out ← evalO st o
+    pure (st, .ret (.cursor fs out))
+  | .retImapIter c, st =>
+    let r := Cursor.step ⟨st.n 0, st.n 1⟩ c
+    pure (st, .ret (.cursor [r.1.front, r.1.back] (some r.2)))
+  | .retMapItems, st => pure (st, .ret (.items (st.s.map.toList.map fun e => e.1)))
+  | .itemsNew v, st => pure (st.setV v (.items []), .normal)
+  | .itemsPush res ev, st =>
+    match st.v res, st.v ev with
+    | some (.items l), some (.optEntry (some e)) => pure (st.setV res (.items (l ++ [e.1])), .normal)
+    | _, _ => .error stuck
+  | .whileSomeCall ev f body, st => do
+    let (s, r) ← callf f st.s [] [] []
+    match r with
+    | .optEntry (some e) => do
+      let (st, fl) ← execStep rec callf body ((st.setS s).setV ev (.optEntry (some e)))
+      match fl with
+      | .normal => rec (.whileSomeCall ev f body) st
+      | .brk => pure (st, .normal)
+      | .ret v => pure (st, .ret v)
+    | .optEntry none => pure (st.setS s, .normal)
+    | _ => .error stuck
+  | .retMapEqBy ov fv, st =>
+    match st.v ov, st.v fv with
+    | some (.store o), some (.eqP f) => pure (st, .ret (.bool (eqvBy f st.s.map o.map)))
+    | _, _ => .error stuck
+  | .setVMapEntries v, st => pure (st.setV v (.entries st.s.map), .normal)
+  | .serBegin v e, st => do
+    let x ← evalN st e
+    pure (st.setV v (.seq (some x) #[]), .normal)
+  | .serElement sv iv pv, st =>
+    match st.v sv, st.v iv, st.p pv with
+    | some (.seq h xs), some (.item it), some p => pure (st.setV sv (.seq h (xs.push (it, p))), .normal)
+    | _, _, _ => .error stuck
 
 /-- call of a translated function: fresh registers holding the arguments, run the body, take the
 returned value (falling off the end returns `()`) -/
